@@ -148,13 +148,12 @@ func KeyFromPublic(pk *goecdh.PublicKey) (key.Key, error) {
 		return nil, fmt.Errorf("cose/key/ecdh: KeyFromPublic: unsupported curve %v", curve)
 	}
 
-	x, y := elliptic.Unmarshal(ecdsaCurve, data)
 	return map[any]any{
 		iana.KeyParameterKty:    iana.KeyTypeEC2,
-		iana.KeyParameterKid:    key.SumKid(data), // default kid, can be set to other value.
-		iana.EC2KeyParameterCrv: crv,              // REQUIRED
-		iana.EC2KeyParameterX:   x.Bytes(),        // REQUIRED
-		iana.EC2KeyParameterY:   y.Bytes(),        // REQUIRED
+		iana.KeyParameterKid:    key.SumKid(data),            // default kid, can be set to other value.
+		iana.EC2KeyParameterCrv: crv,                         // REQUIRED
+		iana.EC2KeyParameterX:   data[1 : 1+(len(data)-1)/2], // REQUIRED
+		iana.EC2KeyParameterY:   data[1+(len(data)-1)/2:],    // REQUIRED
 	}, nil
 }
 
@@ -311,10 +310,8 @@ func ToPublicKey(k key.Key) (key.Key, error) {
 		return nk, nil
 	}
 
-	ecdsaCurve, _ := getECDSACurve(curve)
-	x, y := elliptic.Unmarshal(ecdsaCurve, data)
-	nk[iana.EC2KeyParameterX] = x.Bytes()
-	nk[iana.EC2KeyParameterY] = y.Bytes()
+	nk[iana.EC2KeyParameterX] = data[1 : 1+(len(data)-1)/2]
+	nk[iana.EC2KeyParameterY] = data[1+(len(data)-1)/2:]
 	return nk, nil
 }
 
